@@ -14,6 +14,7 @@ import (
 	"sort"
 	"strings"
 	"time"
+	"verifharness/vh"
 
 	"github.com/uhn/ggql/pkg/ggql"
 )
@@ -170,6 +171,25 @@ func newWorld(u *Universe, any bool, inTypes, outTypes []*TRef) *world {
 	sdl := sdlOf(u, inTypes, outTypes)
 	if err := w.root.ParseString(sdl); err != nil {
 		die("the universe's schema is rejected: %s\n%s", err, sdl)
+	}
+	if any == (vh.Seed()%2 == 0) {
+		// One of the two roots has a past: documents that extend every input type and enum (twice) and were then
+		// refused by validation, by an unknown extension, by a duplicate. A refused load leaves nothing behind, so
+		// the expectations are the same.
+		var ext strings.Builder
+		for round := 0; round < 2; round++ {
+			for n := range u.Inputs {
+				fmt.Fprintf(&ext, "extend input %s { zz%d: Int = %d }\n", n, round, round)
+			}
+			for n := range u.Enums {
+				fmt.Fprintf(&ext, "extend enum %s { ZZ%d }\n", n, round)
+			}
+		}
+		for _, tail := range []string{"type Bad9 { __x: Int }", "extend type Nope9 { x: Int }", "type Query { x: Int }", "type Bad9 { x: Nope9 }"} {
+			if err := w.root.ParseString(ext.String() + tail); err == nil {
+				die("a document that must be refused was accepted: ... %s", tail)
+			}
+		}
 	}
 	return w
 }
